@@ -670,6 +670,11 @@ def parse_vc(path):
                         elif cs:
                             c['spec'] += cs + ' '
                     fn['closures'][n_] = c
+                elif s2.startswith('#abstract-let '):
+                    m2 = re.match(r'#abstract-let\s+(\w+)\s*=\s*(.+)$', s2)
+                    if not m2:
+                        raise ExtractError(f'{path}: bad #abstract-let: {s2}')
+                    fn.setdefault('abstract', []).append((m2.group(1), m2.group(2).strip()))
                 elif s2.startswith('#proof-before '):
                     pat = s2[len('#proof-before '):].strip()
                     fn['proofs'].append(('before', pat, block('#end')))
@@ -728,6 +733,37 @@ def extract_fn(repo, spec, features):
 
     def alive(tok):
         return not any(s <= tok.start < e for (s, e) in dropped)
+
+    # ---- R6: statement abstraction.  `let NAME = <expr>;` at the top level of the body keeps its
+    # binding but the initialiser is replaced by a call to an assumed-contract function.  This is
+    # NOT meaning-preserving: it is logged, reported in the evidence as an unverified expression,
+    # and may only be used for initialisers that borrow `self` immutably.
+    for (var, repl) in spec.get('abstract', []):
+        hits = []
+        j = bo + 1
+        while j < bc:
+            t = T[j]
+            if t.kind == 'punct' and t.text in '([{':
+                j = sf.pairs[j] + 1
+                continue
+            if is_id(t, 'let') and is_id(T[j + 1], var) and alive(t):
+                k = j + 2
+                while not is_p(T[k], '='):
+                    k += 1
+                e = k + 1
+                while not is_p(T[e], ';'):
+                    e = sf.pairs[e] + 1 if (T[e].kind == 'punct' and T[e].text in '([{') else e + 1
+                hits.append((k + 1, e))
+            j += 1
+        if len(hits) != 1:
+            raise ExtractError(f'lost anchor: let {var} in {spec["name"]} ({len(hits)} matches)')
+        a, e = hits[0]
+        orig = ' '.join(sf.text[T[a].start:T[e].start].split())
+        if re.search(r'&mut\s+self|self\.\w+\s*=[^=]', orig):
+            raise ExtractError(f'abstracted initialiser of {var} mutates self: refused')
+        edits.add(T[a].start, T[e].start, ' ' + repl, 'rewrite', 'R6 abstract')
+        log.append({'step': 'R6', 'line': sf.line_of(T[a].start), 'abstracted_unverified': orig[:400], 'replaced_by': repl})
+        dropped.append((T[a].start, T[e].start))
 
     # ---- E5: signature
     # return type
